@@ -73,6 +73,7 @@ type Sched struct {
 	forcedAt    int
 	Hazards     int // two auto-registrations with one base name in one step
 	HazardNames map[string]int
+	rootGid     uint64
 	regStep     map[string]uint64
 	Switches    uint64
 	start       time.Time
@@ -94,6 +95,7 @@ func New(seed uint64) *Sched {
 		hash:       1469598103934665603,
 		start:      time.Now(),
 	}
+	s.rootGid = goid()
 	return s
 }
 
@@ -221,6 +223,9 @@ func (s *Sched) registerLocked(gid uint64, base string, auto bool) *Task {
 	s.tasks = append(s.tasks, t)
 	return t
 }
+
+// IsRoot reports whether the caller is the goroutine that created the scheduler.
+func (s *Sched) IsRoot() bool { return goid() == s.rootGid }
 
 // HoldsToken reports whether the calling goroutine is the task that holds the token.
 func (s *Sched) HoldsToken() (holder bool, isTask bool) {
